@@ -120,7 +120,7 @@ def aggregate(batches, tier, seed, t0):
             plan_digests.add(r["plan_digest"])
             s = r["stats"]
             fired = s["flood_evicting"] + s["gc"] + s["touch"] + (1 if s["shared_objects"] else 0)
-            if s["compared"] >= 10 and fired > 0:
+            if s["compared"] >= 5 and fired > 0:
                 nontrivial.add(r["plan_digest"])
             digest_all.append((b["hashseed"], r["idx"], r["digest"]))
             for f in r["findings"]:
@@ -167,7 +167,7 @@ def evidence(agg, tier, seed, wall, batches):
                 "executed in a forked world; every call's answer compared with the same expression evaluated alone in a "
                 "pristine fork (I1), operands' structural snapshot before/after (I2, confirmed observationally), end-state "
                 "observation of every root (I3). distinct = distinct sha256 of (object recipes, step list); non-trivial = "
-                ">=10 compared answers AND at least one fault fired (flood that evicted, gc, foreign build) or an object "
+                ">=5 compared answers AND at least one fault fired (flood that evicted, gc, foreign build) or an object "
                 "interrogated by >=2 sessions.",
         "samples": sample_plans(seed),
         "distinct_plans": len(agg["plan_digests"]),
